@@ -105,7 +105,7 @@ def family_suite(seed, count, k, out, drv, budget_s=None):
             variants = []
             for j in range(k):
                 lay = 0 if j == 0 else (1 if j == 1 else 2)
-                gen = GM.Gen(random.Random(f"C04/{seed}/{n}"), layout=lay, lg=random.Random(f"C04/{seed}/{n}/lay{j}"), max_items=5)
+                gen = GM.Gen(random.Random(f"C04/{seed}/{n}"), layout=lay, lg=random.Random(f"C04/{seed}/{n}/lay{j}"), max_items=5, same_line=(0.3 if lay == 2 and n % 2 == 0 else 0))
                 variants.append(gen.module())
             cfg = {}
             rend = drv.run([dict(op='render', module=m) for m in variants])
@@ -241,7 +241,42 @@ def accept_suite(seed, count, out, drv, budget_s=None):
     out.suites.append(dict(name='acceptance', modules=done))
 
 
+def big_file_suite(seed, count, out, drv):
+    """files larger than any read buffer, full of multi-byte UTF-8 text in comments: the page must be the one of the unpadded file
+    (a decoder working on fixed-size chunks splits a character at a chunk boundary for some padding)"""
+    with impl.Sandbox() as sb:
+        n = 0; done = 0
+        while done < count and n < count * 6:
+            m, cfg = suites.gen_case('C05', seed + 104729, n); n += 1
+            if not (GM.well_formed(m)[0] and balanced(m)) or m.get('bom'): continue
+            src = drv.run([dict(op='render', module=m)])[0]['src']
+            base = impl.real_pipeline(sb, src, impl.make_settings(cfg, headers=['#']), 'T', 'M')
+            if 'err' in base: continue
+            line = '# ' + 'é✓𝒳ü' * 12 + '\n'
+            for shift in range(12):      # the shift comes first, so that every chunk boundary falls on every byte of some character
+                pad = '#' + 'x' * shift + '\n' + line * (9000 // len(line.encode('utf-8')) + 1)
+                big = pad + src
+                real = impl.real_pipeline(sb, big, impl.make_settings(cfg, headers=['#']), 'T', 'M')
+                mo = drv.run([dict(op='pipeline', cfg=suites.model_cfg(m, cfg), headers=['#'], title='T', mod='M', src=big)])[0]
+                key = ('C05', 'big', seed, n, shift); out.traces_validated += 1; out.note_case(key, True); out.dist['big-file'] += 1
+                rec = dict(suite='big-file', key=key, source=big, module=m, cfg=cfg, pad_bytes=len(pad.encode('utf-8')))
+                if ('err' in mo) != ('err' in real) or mo.get('rst') != real.get('rst'):
+                    out.disagreements.append(dict(rec, detail=dict(kind='padded file', model=str(mo)[:300], real=str(real)[:300])))
+                if 'err' in real:
+                    out.violations.append(dict(rec, detail=dict(kind='valid file not processed to completion once it is preceded by %d bytes of comment lines' % len(pad.encode('utf-8')),
+                                                                real=real), model_agrees='err' in mo))
+                elif real['rst'] != base['rst']:
+                    out.violations.append(dict(rec, detail=dict(kind='comment lines in front of the file changed the page', expected=base['rst'][:400], real=real['rst'][:400]),
+                                               model_agrees=mo.get('rst') == real['rst']))
+            done += 1
+    out.suites.append(dict(name='big-file', modules=done))
+
+
 def accept_replay(v, drv):
+    if v.get('suite') == 'big-file':
+        with impl.Sandbox() as sb:
+            real = impl.real_pipeline(sb, v['source'], impl.make_settings(v.get('cfg'), headers=['#']), 'T', 'M')
+        return dict(fails='err' in real, real=str(real)[:600])
     m = v['module']
     r = drv.run([dict(op='render', module=m)])[0]
     with impl.Sandbox() as sb:
